@@ -190,6 +190,8 @@ def run(eng: Engine, ck: Check):
         ck.ob('R-C04-FAULT', caller, call, '_remove_local_file is called only from abort()', caller.name == 'abort',
               f'called from {caller.qualname}', construct=f'{caller.qualname} removes file')
 
+    task_fault_rule(eng, ck)
+
     # ---- R-C04-RETRY
     gq = eng.func(TM, 'TransferManager._get_queued_transfers')
     apps = [a for a in calls_in(gq.node) if call_name(a) == 'append' and 'download' in unparse(a.func.value)]
@@ -205,3 +207,177 @@ def run(eng: Engine, ck: Check):
     ok = len(st) == 1 and const(st[0][1]) is False and bool(calls_on(puf.node, 'request_management_cycle'))
     ck.ob('R-C04-RETRY', puf, puf.node, 'PeerUploadFailed clears remotely_queued and requests a management cycle', ok,
           f'{[unparse(s) for s, _ in st]}', construct='upload failed -> requeue')
+
+
+# ---------------------------------------------------------------------------------------------------------------------------
+# R-C04-TASKFAULT: a connection fault never kills a transfer task while the transfer is INITIALIZING / UPLOADING / DOWNLOADING.
+#
+# Typestate walk over the syntax of the transfer task functions.  State of the walk: "released" = since the last
+# `state.initialize()` / `state.start_transferring()` a state request (fail / incomplete / complete / queue / abort / ...) has been
+# awaited, i.e. the transfer is no longer in a transient state that only this task can leave.  Exceptions are typed: the fault set
+# of a call comes from Engine.faults() (FaultEscape: exceptions the repo raises while handling an I/O failure, specialised on
+# constant arguments such as raise_exception=False).  A fault that leaves the function while not released is a violation: the task
+# dies, nobody moves the transfer on, and "once faults stop the transfer finishes without user action" is lost.
+ACQUIRE = {'initialize', 'start_transferring'}
+RELEASE = {'fail', 'incomplete', 'complete', 'queue', 'abort', 'pause'}
+NETWORK_FAULTS = {'NetworkError', 'PeerConnectionError', 'ConnectionFailedError', 'ConnectionReadError', 'ConnectionWriteError'}
+
+
+def _state_request(call: ast.Call) -> Optional[str]:
+    if isinstance(call.func, ast.Attribute) and isinstance(call.func.value, ast.Attribute) and call.func.value.attr == 'state':
+        return call.func.attr
+    return None
+
+
+class TaskFaultWalk:
+    """Escape items are (fault type, released?, call or raise statement that produced it)."""
+
+    def __init__(self, eng: Engine, roots: list[FuncInfo]):
+        self.eng = eng
+        self.fe = eng.faults()
+        self.roots = roots
+        self.summary: dict[FuncInfo, tuple[set, Optional[bool]]] = {}
+
+    def of(self, fn: FuncInfo) -> tuple[set, Optional[bool]]:
+        if fn not in self.summary:
+            self.summary[fn] = (set(), True)      # recursion guard
+            esc, rel = self.block(fn, fn.node.body, True, frozenset())
+            self.summary[fn] = (esc, rel)
+        return self.summary[fn]
+
+    # faults of the calls of one statement's own expressions, and the state requests it makes
+    def stmt_effects(self, fn: FuncInfo, exprs: list[ast.AST], rel: bool):
+        esc = set()
+        for e in exprs:
+            for x in walk_with_lambdas(e):
+                if not isinstance(x, ast.Call):
+                    continue
+                req = _state_request(x)
+                if req in ACQUIRE and isinstance(parent(x), ast.Await):
+                    rel = False
+                    continue
+                if req in RELEASE and isinstance(parent(x), ast.Await):
+                    rel = True
+                    continue
+                cs = self.eng.res.callees(x, fn)
+                awaited = isinstance(parent(x), ast.Await)
+                for c in cs:
+                    if c.is_async and not awaited:
+                        continue
+                    if c in self.roots and c is not fn:
+                        e2, r2 = self.of(c)
+                        for t, r, w in e2:
+                            esc.add((t, r, w if not r else x))
+                        if r2 is not None:
+                            rel = r2
+                        continue
+                    for t in self.fe.of_call(x, c):
+                        if t in NETWORK_FAULTS:
+                            esc.add((t, rel, x))
+        return esc, rel
+
+    def block(self, fn, stmts, rel: Optional[bool], caught: frozenset):
+        esc: set = set()
+        for st in stmts:
+            if rel is None:
+                break
+            e, rel = self.stmt(fn, st, rel, caught)
+            esc |= e
+        return esc, rel
+
+    def stmt(self, fn, st, rel: bool, caught: frozenset):
+        if isinstance(st, FUNC_NODES) or isinstance(st, ast.ClassDef):
+            return set(), rel
+        if isinstance(st, ast.Raise):
+            e, rel2 = self.stmt_effects(fn, [st.exc] if st.exc is not None else [], rel)
+            if st.exc is None:
+                e |= {(t, rel2, st) for t, _, _w in caught}
+            else:
+                x = st.exc.func if isinstance(st.exc, ast.Call) else st.exc
+                ch = attr_chain(x)
+                if ch and ch[-1] in NETWORK_FAULTS and caught:
+                    e.add((ch[-1], rel2, st))
+            return e, None
+        if isinstance(st, ast.Return):
+            e, rel2 = self.stmt_effects(fn, [st.value] if st.value is not None else [], rel)
+            return e, None
+        if isinstance(st, (ast.Break, ast.Continue)):
+            return set(), None
+        if isinstance(st, ast.If):
+            e0, rel = self.stmt_effects(fn, [st.test], rel)
+            e1, r1 = self.block(fn, st.body, rel, caught)
+            e2, r2 = self.block(fn, st.orelse, rel, caught)
+            rs = [r for r in (r1, r2) if r is not None]
+            return e0 | e1 | e2, (all(rs) if rs else None)
+        if isinstance(st, (ast.For, ast.AsyncFor, ast.While)):
+            e0, rel = self.stmt_effects(fn, [st.iter if not isinstance(st, ast.While) else st.test], rel)
+            e1, r1 = self.block(fn, st.body, rel, caught)
+            e2, r2 = self.block(fn, st.orelse, rel, caught)
+            return e0 | e1 | e2, rel and (r1 is None or r1) and (r2 is None or r2)
+        if isinstance(st, (ast.With, ast.AsyncWith)):
+            e0, rel = self.stmt_effects(fn, [i.context_expr for i in st.items], rel)
+            e1, r1 = self.block(fn, st.body, rel, caught)
+            return e0 | e1, r1
+        if isinstance(st, ast.Try):
+            eb, rb = self.block(fn, st.body, rel, caught)
+            out = set()
+            per_handler: dict[int, set] = {}
+            for item in eb:
+                t = item[0]
+                must = False
+                for i, h in enumerate(st.handlers):
+                    m = handler_catches_type(h, t)
+                    if m != 'no':
+                        per_handler.setdefault(i, set()).add(item)
+                    if m == 'must':
+                        must = True
+                        break
+                if not must:
+                    out.add(item)
+            rels = []
+            if rb is not None:
+                eo, ro = self.block(fn, st.orelse, rb, caught) if st.orelse else (set(), rb)
+                out |= eo
+                rels.append(ro)
+            for i, h in enumerate(st.handlers):
+                incoming = per_handler.get(i, set())
+                # entered with the flag the transfer had when the fault was raised; a handler that can only be entered by other
+                # exceptions (OSError, CancelledError, ..) is walked with the flag at the start of the try
+                flags = {it[1] for it in incoming} or {rel}
+                for fl in flags:
+                    eh, rh = self.block(fn, h.body, fl, frozenset(it for it in incoming if it[1] == fl))
+                    out |= eh
+                    rels.append(rh)
+            if st.finalbody:
+                ef, rf = self.block(fn, st.finalbody, rel, caught)
+                out |= ef
+            rs = [r for r in rels if r is not None]
+            return out, (all(rs) if rs else None)
+        exprs = [c for c in ast.iter_child_nodes(st) if isinstance(c, ast.expr)]
+        return self.stmt_effects(fn, exprs, rel)
+
+
+def handler_catches_type(h: ast.ExceptHandler, t: str) -> str:
+    from sa import cfg as cfgmod
+    return cfgmod.handler_catches(h, 'exc', t)
+
+
+def task_fault_rule(eng: Engine, ck: Check):
+    roots = [eng.func(TM, q) for q in ('TransferManager._upload_file', 'TransferManager._download_file',
+                                       'TransferManager._initialize_upload', 'TransferManager._initialize_download')]
+    w = TaskFaultWalk(eng, roots)
+    n = 0
+    for f in roots:
+        ck.visited(f)
+        esc, rel = w.of(f)
+        bad = sorted({t for t, r, _w in esc if not r})
+        n += 1
+        where = next((w_ for t, r, w_ in sorted(esc, key=lambda it: getattr(it[2], 'lineno', 0)) if not r), None)
+        ck.ob('R-C04-TASKFAULT', f, where if where is not None else f.node,
+              f'{f.name}: no connection fault (NetworkError family) leaves the task while the transfer is INITIALIZING / UPLOADING / DOWNLOADING '
+              '(every fault is caught and answered with a state request first)', not bad,
+              f'{bad} can escape before any of fail()/incomplete()/complete()/queue() was requested'
+              + (f' — raised through `{unparse(where)[:70]}` at line {getattr(where, "lineno", "?")}' if where is not None else '')
+              + ': the task dies, the transfer keeps its transient state and its upload slot, and nothing retries it',
+              construct=f'{f.qualname} faults answered')
+    ck.floor('R-C04-TASKFAULT', n, 4)
